@@ -24,7 +24,7 @@ OBLIGATIONS = [
     'C03.instErrs_congr', 'C03.itemDrivers_congr', 'C03.bodyErrs_congr', 'C03.lookup_replace', 'C03.same_sig_interchangeable',
     'C03.abs_binding_counterexample',
     'C03.localWireName_not_keyword', 'C03.getInstanceName_not_keyword', 'C03.reserved_prefix_not_keyword',
-    'C03.validName_not_keyword_partial', 'C03.validName_keyword_counterexample',
+    'C03.validName_not_keyword', 'C03.validName_keyword_counterexample_prefix_table',
     'C03.port_reserved_collision_counterexample', 'C03.port_wire_collision_counterexample',
     'C03.port_instance_collision_counterexample',
     'V.WF.validName_inj', 'V.WF.emittedNames_nodup', 'V.WF.count_eq_one_of_nodup',
@@ -62,10 +62,9 @@ PROPOSED_FINDINGS = [
      "class_expr": "r.get('kind')=='wf' and r.get('err')=='dupDecl' and len(r['source_kinds'])>=2 and set(r['source_kinds'])=={'wire'} and len(r['source_names'])==1 and r.get('distinct_wires')",
      "witness": {"design": "hw.wire('t') and top.wire('t') both local to Top", "emitted": "wire [2:0] w_t; wire [2:0] w_t;"},
      "what": "two distinct wires with the same name (names are only unique per owner) that meet in one scope are both declared `w_<name>`: duplicate declaration and two drivers on one net"},
-    {"id": "C03-keyword-table", "property": "C03", "status": "known", "anchor": "py4hw/rtl_generation.py:78",
-     "class_expr": "(r.get('kind')=='name' and r.get('name') in ('design','uwire')) or (r.get('kind')=='wf' and r.get('err')=='reserved' and r.get('name') in ('design','uwire') and set(r['source_kinds'])=={'port'})",
-     "witness": {"design": "Top(in uwire, out design)", "emitted": "input [3:0] uwire, output [3:0] design"},
-     "what": "isReservedVerilogKeyword lacks the IEEE 1364-2005 keywords `design` and `uwire`: ports with these names are emitted unprefixed"},
+    {"id": "C03-keyword-table", "property": "C03", "status": "fixed", "commit": "a15e5f4", "anchor": "py4hw/rtl_generation.py:78",
+     "witness": {"design": "Top(in uwire, out design)", "emitted": "before a15e5f4: input [3:0] uwire, output [3:0] design"},
+     "what": "fixed: property=C03 a15e5f4 isReservedVerilogKeyword lacked the IEEE 1364-2005 keywords `design` and `uwire`: ports with these names were emitted unprefixed (a recurrence is a VIOLATION: no class predicate)"},
     {"id": "C03-verbatim-identifiers", "property": "C03", "status": "known", "anchor": "py4hw/rtl_generation.py:720",
      "class_expr": "(r.get('kind')=='wf' and r.get('err') in ('reserved','reservedModule') and len(r['source_kinds'])>0 and set(r['source_kinds'])<={'clock','class','param','variable'}) or "
                    "(r.get('kind')=='parse' and len(r.get('kw_in_ctx',[]))>0)",
@@ -104,8 +103,14 @@ def fail(res, what, replay):
     """res.fail, with the proposed findings consulted in addition to known_findings.json"""
     import common
     listed = {k.get('id') for k in load_known()}
+    fixed = {k['id'] for k in PROPOSED_FINDINGS if k.get('status') == 'fixed'}
+    for k in load_known():
+        # a finding repaired in /repo must not absorb a recurrence, even while known_findings.json still lists it as known
+        if k.get('id') in fixed and k.get('status') == 'known' and common._matches(k, what, replay):
+            res.failures.append({'what': what + ' [recurrence of fixed finding ' + k['id'] + ']', 'replay': replay})
+            return
     for k in PROPOSED_FINDINGS:
-        if k['id'] not in listed and common._matches(k, what, replay):
+        if k['id'] not in listed and k.get('status') == 'known' and common._matches(k, what, replay):
             res.known_hits.append((k, what))
             res.hist('known_finding_hits', k['id'])
             return
@@ -745,6 +750,22 @@ def names_oracle(pipe, res, rng, kws, tier):
     words = sorted(kws) + ['logic', 'bit', 'int', 'var', 'x', 'data', 'w_x', 'i_x', 'reserved_wire', 'Wire', 'WIRE', '', 'a1', '_', 'untypted', 'untyped']
     src = inspect.getsource(R.isReservedVerilogKeyword)
     words += sorted(set(re.findall(r"'(\w+)'", src)))
+    # the emitter's 1364 tables (reserved95 ++ reserved2001) against the model's IEEE 1364-2005 Annex B list, word by word
+    def table(name):
+        m = re.search(name + r"\s*=\s*\[(.*?)\]", src, flags=re.S)
+        return re.findall(r"'(\w+)'", m.group(1)) if m else None
+    t95, t01 = table('reserved95'), table('reserved2001')
+    if t95 is None or t01 is None:
+        res.disagree('keyword-table', dict(what='reserved95 / reserved2001 tables not found in isReservedVerilogKeyword'))
+    else:
+        res.hist('keyword_table', 'ieee_words_missing_from_emitter', len(kws - set(t95) - set(t01)))
+        res.hist('keyword_table', 'emitter_1364_words_not_ieee', len((set(t95) | set(t01)) - kws))
+        for w in sorted(kws - set(t95) - set(t01)):
+            if not R.isReservedVerilogKeyword(w):
+                fail(res, f'IEEE 1364-2005 keyword {w!r} is missing from the emitter\'s reserved-word tables', dict(kind='name', name=w, valid=R.getValidVerilogName(w)))
+        extra = sorted((set(t95) | set(t01)) - kws)
+        if extra:
+            res.notes.append(f'emitter lists non-IEEE-1364-2005 words in reserved95/2001 (harmless, they are only prefixed): {extra}')
     r = rng.fork('names')
     for _ in range(50 if tier == 'quick' else 2000):
         words.append(''.join(r.choice('abcdefghijklmnopqrstuvwxyz_01') for _ in range(r.randint(1, 9))))
